@@ -84,12 +84,16 @@ RUN_TOL = 1e-8   # component outputs after run_model vs R
 def shards(tier, seed):
     n = 16 if tier == 'quick' else 64
     per = 45 if tier == 'quick' else 250
-    return [{'seed': seed * 100000 + i * 1000, 'n': per, 'tier': tier} for i in range(n)]
+    nkit = 60 if tier == 'quick' else 300
+    return [{'seed': seed * 100000 + i * 1000, 'n': per, 'nkit': nkit, 'tier': tier} for i in range(n)]
 
 
 def run_shard(shard, acc):
     for k in range(shard['n']):
         run_case({'seed': shard['seed'] + k, 'tier': shard.get('tier', 'quick')}, acc)
+    # second model family: true scalar (0-d) variables, 0-d/array mixes, dynamic shapes (omv/gen/c07_kit.py)
+    for k in range(shard.get('nkit', 0)):
+        run_case({'seed': shard['seed'] + k, 'tier': shard.get('tier', 'quick'), 'family': 'scalar-kit'}, acc)
 
 
 # ------------------------------------------------------------------------------------------------------
@@ -209,11 +213,16 @@ def _np_index(idx):
 # ------------------------------------------------------------------------------------------------------
 # history generation (JSON-able)
 # ------------------------------------------------------------------------------------------------------
-def gen_history(rng, names, fm):
+def gen_history(rng, names, fm, known0=None):
+    """known0: (kit family) slots whose value exists right after setup(); a slot outside it (dynamic shape not
+    resolved yet) is addressed by nothing but a full-value set_val until the history has passed a final_setup /
+    run_model in its earliest placement."""
     from omv.gen import models as G
     from omv.ref.flatmodel import UNITS
     nops = rng.randint(5, 20)
     risky = rng.random() < 0.2
+    kit = known0 is not None
+    known = set(known0) if kit else None
     ops = []
     settable = [k for k, n in enumerate(names) if n['settable']]
     # positions of optional lifecycle events inside the history
@@ -225,6 +234,7 @@ def gen_history(rng, names, fm):
         tries += 1
         if len(ops) in ev_at:
             ops.append({'op': ev_at.pop(len(ops))})
+            known = None        # everything has a value from here on
             continue
         is_set = rng.random() < 0.6
         # weight the rarer name kinds up a little: pick a kind first, then a name of that kind
@@ -235,11 +245,25 @@ def gen_history(rng, names, fm):
         n = names[k]
         shape = n['pos'].shape
         size = n['pos'].size
+        unknown = kit and known is not None and n['slot'] not in known
+        if unknown and (not is_set or fm.out_shape[n['slot']] == ()):
+            # (a python scalar given to a variable whose shape is not known yet is taken as a (1,) array: whether
+            #  () or (1,) is meant cannot be told, so 0-d variables wait for final_setup)
+            continue
         # ---- indices
         idx = None
         as_list = False
         slicer = False
-        if size > 1 and rng.random() < 0.7:
+        if unknown:
+            pass
+        elif kit and is_set and fm.out_shape[n['slot']] == ():
+            # OpenMDAO rejects indices when the source is not an array ("Can't set a non-array using indices")
+            pass
+        elif shape == ():
+            # a true scalar: NumPy accepts () and ... ; OpenMDAO rejects indices when setting a non-array
+            if not is_set and rng.random() < 0.3:
+                idx = rng.choice([(), Ellipsis])
+        elif size > 1 and rng.random() < 0.7:
             for _ in range(10):
                 cand = G.rand_index(rng, shape, False, allow_known=rng.random() < 0.35)
                 try:
@@ -278,12 +302,14 @@ def gen_history(rng, names, fm):
             if not np.all(np.isin(alias, esel)):
                 continue
             form = rng.choice(['scalar', 'array', 'array', 'list'])
+            if unknown:
+                form = rng.choice(['array', 'list']) if shape != () else 'scalar'
             if sel.shape == ():
                 form = rng.choice(['scalar', 'scalar', 'array0d'])
             # forms that hit recorded findings are generated only in a fraction of the histories, so that the
             # other histories stay clean and are compared across placements
             suspect = ((form == 'scalar' and sel.size > 1 and (idx is not None or n['indexed']))
-                       or (sel.shape == () and n['kind'].endswith('abs-in'))
+                       or (sel.shape == () and n['kind'].endswith('abs-in') and not kit)
                        or (idx is not None and n['mech'] == 'scalar-chain')
                        or n['mech'] in ('dup-chain2', 'flat-link-after-noncontiguous-view'))
             if suspect and not risky:
@@ -295,6 +321,8 @@ def gen_history(rng, names, fm):
                 w = {p: round(rng.uniform(-3, 3), 3) for p in selpos.tolist()}
                 op['val'] = np.vectorize(lambda p: w[int(p)], otypes=[float])(sel).tolist()
             op['form'] = form
+            if unknown:
+                known.add(n['slot'])
         ops.append(op)
     return ops
 
@@ -376,7 +404,7 @@ def _close(got, exp, tol):
 class Replay:
     """One placement of one history on a fresh problem."""
 
-    def __init__(self, spec, fm, names, hist, placement, u_init, u_run0, acc, calloc=False):
+    def __init__(self, spec, fm, names, hist, placement, u_init, u_run0, acc, calloc=False, known0=None):
         # complex-allocated vectors (what any ExecComp / cs partial causes) make every source read a
         # non-contiguous .real view: a mechanism of its own in the keys
         self.calloc = calloc
@@ -390,10 +418,14 @@ class Replay:
         self.u_init, self.u_run0 = u_init, u_run0
         self.unjudgeable = None
         self.raised = False
-        self.has_solver = any(g.get('nl', {}).get('type') not in (None, 'runonce') for g in _groups(spec['tree']))
+        self.kit = spec.get('family') == 'scalar-kit'
+        self.has_solver = (not self.kit) and any(g.get('nl', {}).get('type') not in (None, 'runonce')
+                                                 for g in _groups(spec['tree']))
+        # (kit family) slots that have a value before final_setup; None = all
+        self.known = set(known0) if known0 is not None else None
         self.canon = {}
         for n in names:
-            if n['kind'] in ('ivc-abs', 'state-abs', 'param-prom'):
+            if n['canon'] if self.kit else n['kind'] in ('ivc-abs', 'state-abs', 'param-prom'):
                 self.canon[n['slot']] = n
 
     # -- helpers ------------------------------------------------------------------------------------
@@ -494,7 +526,11 @@ class Replay:
         self.fmon = FailureMonitor()
         with self.fmon, poison():
             try:
-                self.prob = prob = G.build(self.spec)
+                if self.kit:
+                    from omv.gen import c07_kit
+                    self.prob = prob = c07_kit.build(self.spec)
+                else:
+                    self.prob = prob = G.build(self.spec)
                 prob.setup(force_alloc_complex=self.calloc)
             except Exception as e:
                 self.raised = True
@@ -514,6 +550,7 @@ class Replay:
         ok, _ = self._call(what, None, '-', getattr(self.prob, what))
         if not ok:
             return False
+        self.known = None       # every shape is resolved, every variable has a value
         if what == 'final_setup':
             if self.phase == 'pre-final-setup':
                 self.phase = 'post-final-setup'
@@ -559,6 +596,34 @@ class Replay:
             sdep = self._is_state(n['slot'])
             ucls = self._ucls(n, op['units'])
             self._count_cells(op, n, cls, forms)
+            first_value = self.known is not None and n['slot'] not in self.known
+            if first_value:
+                # dynamically shaped variable that has neither shape nor value yet: the (full) set_val gives it one;
+                # there is nothing to read before it (in the other placements the slot is judged in full)
+                self.acc.count('obs:set-of-unresolved-dynamic-variable')
+                val = np.array(op['val'], dtype=float) if op['form'] in ('array', 'array0d') else op['val']
+                vcls = 'scalar' if op['form'] in ('scalar', 'array0d') else 'array'
+                sig = '%s-to-%s' % (vcls, cls)
+                self._argtxt = ', %s, units=%r, indices=%r' % (_short(op['val']), op['units'], ref_idx)
+                ok, _ = self._call('set_val', n, sig, lambda: prob.set_val(n['name'], val, **kw))
+                self.known.add(n['slot'])
+                if ok:
+                    self.shadow.set(n, op['units'], ref_idx, op['val'])
+                    ok, got = self._call('get_val', n, cls, lambda: np.array(prob.get_val(n['name'], **kw)))
+                    if ok:
+                        exp, mag = self.shadow.get(n, op['units'], ref_idx)
+                        good, why = _close(got, exp, RT * mag)
+                        acc.count('obs:roundtrip-get-after-set')
+                        if not good:
+                            self._flag('roundtrip-mismatch:%s:%s:%s:%s' % (n['mech'], sig, n['kind'], ucls),
+                                       'set_val(%s, %s, units=%s) on a not yet resolved dynamic shape, then get_val '
+                                       'returned %s (%s)' % (n['name'], _short(exp), op['units'], _short(got), why))
+                else:
+                    self._resync(n['slot'])
+                # (streams of the cross-placement comparison keep their length)
+                for t in ('roundtrip', 'slot'):
+                    self.obs['ops'].append(('n/a', None, 1.0, sdep))
+                continue
             self._argtxt = ', units=%r, indices=%r' % (op['units'], ref_idx)
             if op['op'] == 'get':
                 ok, got = self._call('get_val', n, cls, lambda: np.array(prob.get_val(n['name'], **kw)))
@@ -566,6 +631,10 @@ class Replay:
                     self.obs['ops'].append(('get-raised', None, 1.0, sdep))
                     continue
                 exp, mag = self.shadow.get(n, op['units'], ref_idx)
+                if ref_idx is not None and n['pos'].shape == () and np.size(got) == 1:
+                    # indices on a true scalar: the value is judged, not whether the result is 0-d or (1,)
+                    got = np.asarray(got).reshape(np.shape(exp))
+                    acc.count('obs:indexed-read-of-0d')
                 good, why = _close(got, exp, RT * mag)
                 acc.count('obs:alias-read')
                 self.obs['ops'].append(('get', got, mag, sdep))
@@ -701,8 +770,11 @@ class Replay:
     def _read_all(self, tag):
         self._argtxt = ''
         for n in self.names:
-            ok, got = self._call('get_val', n, 'read-all', lambda: np.array(self.prob.get_val(n['name'])))
             sdep = self._is_state(n['slot'])
+            if self.known is not None and n['slot'] not in self.known:
+                self.obs[tag].append(('n/a', None, 1.0, sdep))
+                continue
+            ok, got = self._call('get_val', n, 'read-all', lambda: np.array(self.prob.get_val(n['name'])))
             if not ok:
                 self.obs[tag].append(('get-raised', None, 1.0, sdep))
                 continue
@@ -740,16 +812,32 @@ def _short(a):
 def run_case(case, acc):
     from omv.gen import models as G
     from omv.ref.flatmodel import FlatModel
-    rng = random.Random(case['seed'])
-    opts = dict(OPTS)
-    cyc = rng.random() < 0.2
-    opts['solver_mix'] = 'any' if cyc else 'runonce'
-    if cyc:
-        opts['p_cycle'] = 0.7
-    spec = G.gen_spec(rng, opts)
-    fm = FlatModel(spec)
-    names = addressable(spec, fm)
-    hist = gen_history(rng, names, fm)
+    kit = case.get('family') == 'scalar-kit'
+    known0 = None
+    if kit:
+        from omv.gen import c07_kit
+        rng = random.Random(case['seed'] * 31 + 7)
+        cyc = False
+        spec = c07_kit.gen_spec(rng)
+        fm = c07_kit.KitModel(spec)
+        names = c07_kit.addressable(spec, fm)
+        known0 = c07_kit.known_before_final_setup(spec, fm)
+        hist = gen_history(rng, names, fm, known0=known0)
+        acc.count('cell:family=scalar-kit')
+        for f in c07_kit.features(spec):
+            acc.count('cell:kit:' + f)
+    else:
+        rng = random.Random(case['seed'])
+        opts = dict(OPTS)
+        cyc = rng.random() < 0.2
+        opts['solver_mix'] = 'any' if cyc else 'runonce'
+        if cyc:
+            opts['p_cycle'] = 0.7
+        spec = G.gen_spec(rng, opts)
+        fm = FlatModel(spec)
+        names = addressable(spec, fm)
+        hist = gen_history(rng, names, fm)
+        acc.count('cell:family=G')
     nset = sum(1 for o in hist if o['op'] == 'set')
     if nset == 0:
         acc.skip('history-without-set')
@@ -759,12 +847,13 @@ def run_case(case, acc):
     if not conv:
         acc.skip('oracle-newton-not-converged')
         return
-    has_solver = any(n.get('nl', {}).get('type') not in (None, 'runonce') for n in _groups(spec['tree']))
+    has_solver = (not kit) and any(n.get('nl', {}).get('type') not in (None, 'runonce')
+                                   for n in _groups(spec['tree']))
     calloc = random.Random(case['seed'] * 7919 + 13).random() < 0.25     # own stream: histories unchanged
     acc.count('cell:vectors=%s' % ('complex' if calloc else 'real'))
     reps = []
     for placement in (0, 1, 2):
-        r = Replay(spec, fm, names, hist, placement, u_init, u_run0, acc, calloc=calloc)
+        r = Replay(spec, fm, names, hist, placement, u_init, u_run0, acc, calloc=calloc, known0=known0)
         r.run()
         reps.append(r)
     bad = []
@@ -787,6 +876,8 @@ def run_case(case, acc):
                     to, vo, mo, so = oo[j]
                     if sa and (other.placement == 2 or stream == 'after-run'):
                         continue      # component outputs legitimately differ once the model has been run
+                    if ta == 'n/a' or to == 'n/a':
+                        continue      # (kit) not observable in one placement: dynamic shape not resolved yet
                     acc.count('obs:cross-placement-compare')
                     # (a placement that ran the model first may carry round-off level updates that a solver stack
                     #  put on independent variables)
@@ -826,6 +917,8 @@ def run_case(case, acc):
         combos.add((o['op'], n['kind'], cls, tuple(sorted(forms)), ucls, o.get('form')))
         if o['op'] == 'set' and (cls != 'none' or ucls in ('units-scale', 'units-offset')):
             nontriv = True
+    if kit:
+        combos.add(('scalar-kit',) + tuple(sorted(c07_kit.features(spec))))
     acc.ok(fingerprint([sorted(combos), calloc]), nontrivial=nontriv,
            sample={'seed': case['seed'], 'names': [(n['name'], n['kind'], n['slot']) for n in names][:8],
                    'history': [dict(o, name=names[o['k']]['name']) if 'k' in o else o for o in hist][:8]})
